@@ -3,7 +3,7 @@
 # then run the snapshot's check against each kept one. Output: one line per change.
 P="$1"; SNAP="$2"; OFF="${3:-3}"
 VERIF="$(cd "$(dirname "$0")/../.." && pwd)"
-WT=/tmp/sw-$P
+WT=${WTBASE:-/tmp/sw}-$P
 NAMES=""
 for K in 1 2 3; do
   D=$(ls -d /tmp/seed-out/$P/r*-m$K 2>/dev/null | tail -1); [ -d "$D" ] || continue
